@@ -3,9 +3,26 @@
 import json, subprocess
 
 LEVEL = {
- "C01": ("shadow-multiset monitor over generated insert/delete/union/clear histories with a sweep of all live keys after every operation", "DESIGN §4 C01"),
- "C13": ("set-of-classes reference model run in lock-step after every insert with a full-universe sweep; exhaustive for the four smallest tables", "DESIGN §4 C13"),
+ "C01": ("shadow-multiset history monitor: generated insert/delete/union/clear histories (incl. failing ones, hostile hashers/RNGs, kick budgets), all live keys queried after every operation", "DESIGN §4 C01"),
+ "C02": ("exact-count reference model in lock-step over add/add_n/merge/clear histories on five counter types; return values compared with query_point", "DESIGN §4 C02"),
+ "C03": ("statistical monitor over independent hash streams: RMS / mean / tail of the relative error at ~240 cardinalities per precision, two-stage confirmation; no-panic sweep over arbitrary register vectors", "DESIGN §4 C03"),
+ "C04": ("rank-error oracle against the exact empirical CDF of all inserted values at checkpoints, plus centroid-count bound, over scale functions x delta x backlog x 13 data families", "DESIGN §4 C04"),
+ "C05": ("statistical monitor of per-position / per-region inclusion frequencies over many RNG seeds against k/n (exact cells) or the documented-algorithm reference (gap cells), two-stage confirmation", "DESIGN §4 C05"),
+ "C06": ("differential monitor: merged structure vs sequentially built reference, other operand before/after, algebraic laws on stream triples", "DESIGN §4 C06"),
+ "C07": ("usability sweep over the (n,p) plane (release + debug-assertion builds) and statistical monitor of false-positive frequencies over hasher seeds with the upper-bounded-rate rule; Bloom len() estimator check", "DESIGN §4 C07"),
+ "C08": ("statistical monitor of the (seed, element) failure fraction per (epsilon, delta, stream) cell incl. adversarial heavy-hitter streams, two-stage confirmation, known-finding envelopes", "DESIGN §4 C08"),
+ "C09": ("exact-count reference model at every stream prefix: no-miss / no-intruder for a threshold grid, add() return value vs tracked set, harmonic bound on the table", "DESIGN §4 C09"),
+ "C10": ("exact counts + shadow CountMinSketch at every prefix: result size/membership and the k-most-frequent-up-to-E rule; release and debug-assertion builds for the no-panic clause", "DESIGN §4 C10"),
+ "C11": ("counting global allocator (thread-local live bytes) bracketing construction / streams of growing length / clear-refill cycles / failed operations; valgrind massif cross-check in the thorough tier", "DESIGN §4 C11"),
+ "C12": ("fault-sequence monitor: observables recorded before every insert/union and compared after every Err (kick budgets force failures after any number of evictions; unions failing at first/middle/last fingerprint), continuation vs pre-failure clone / model", "DESIGN §4 C12"),
+ "C13": ("set-of-classes reference model in lock-step after every insert with a full-universe sweep; exhaustive DFS for the four smallest tables, all quotient sequences for q=3", "DESIGN §4 C13"),
  "C14": ("multiset-of-classes reference model in lock-step with full-universe sweeps and deletable-count probes on clones; exhaustive bounded histories on the 2x2x2 table", "DESIGN §4 C14"),
+ "C15": ("dense-grid monitor of quantile/cdf monotonicity, range, end points, mutual consistency against the digest's own cells (hook accessor) and read repeatability", "DESIGN §4 C15"),
+ "C16": ("double-double reference accumulation compared after operations of generated insert/insert_weighted/read/clear histories", "DESIGN §4 C16"),
+ "C17": ("independent bit-loop reference for registers, permutation/duplication invariance, add vs add_hashed, reconstruction equality over boundary and random hashes", "DESIGN §4 C17"),
+ "C18": ("direct validity oracle on reservoir() after every add under fast, hostile and scripted RNGs; release and debug-assertion builds", "DESIGN §4 C18"),
+ "C19": ("lock-step differential execution: cleared vs fresh structure (RNG rewound) over identical continuations, clone/original isolation, for all nine structures", "DESIGN §4 C19"),
+ "C20": ("round-trip differential continuation and a corrupted-document sweep (b x length grid, field corruptions, random structural mutations) with invariant + liveness checks on whatever deserialises", "DESIGN §4 C20"),
 }
 
 def hook_commits():
